@@ -167,9 +167,13 @@ pub fn create_dir_all<P: AsRef<Path>>(path: P) -> Result<()> {
 
         // Create from root down
         for dir in to_create.into_iter().rev() {
-            // Skip if it already exists (as file or dir)
-            if ctx.fs.dir_exists(&dir) || ctx.fs.file_exists(&dir) {
+            // Skip if it already exists as a directory; an existing file
+            // makes mkdir fail (EEXIST for the last component, ENOTDIR above it)
+            if ctx.fs.dir_exists(&dir) {
                 continue;
+            }
+            if dir != path && ctx.fs.file_exists(&dir) {
+                return Err(posix_err("Not a directory"));
             }
             ctx.fs.mkdir(&dir, ctx.now).map_err(posix_err)?;
         }
@@ -1327,9 +1331,13 @@ impl OpenOptions {
 
             let file_exists = ctx.fs.file_exists(&resolved_path);
 
-            // Handle create_new: fail if file exists
-            if self.create_new && file_exists {
+            // Handle create_new: fail if anything exists under the name
+            if self.create_new && (file_exists || ctx.fs.dir_exists(&resolved_path)) {
                 return Err(Error::new(ErrorKind::AlreadyExists, "file already exists"));
+            }
+            // A file cannot be created over an existing directory
+            if self.create && ctx.fs.dir_exists(&resolved_path) {
+                return Err(posix_err("Is a directory"));
             }
 
             // Handle missing file
@@ -1640,8 +1648,11 @@ fn create_dir_all_with_mode<P: AsRef<Path>>(path: P, mode: u32) -> Result<()> {
 
         // Create from root down
         for dir in to_create.into_iter().rev() {
-            if ctx.fs.dir_exists(&dir) || ctx.fs.file_exists(&dir) {
+            if ctx.fs.dir_exists(&dir) {
                 continue;
+            }
+            if dir != path && ctx.fs.file_exists(&dir) {
+                return Err(posix_err("Not a directory"));
             }
             ctx.fs
                 .mkdir_with_mode(&dir, ctx.now, mode)
